@@ -378,6 +378,11 @@ class Engine:
                 out.append((s, vals))
                 continue
             n = len(e.keys)
+            if n == 1 and isinstance(vals[1], UnionV) and not (isinstance(vals[0], StrV) and z3.is_string_value(simp(vals[0].t))):
+                # {key: value} with a symbolic key: one dict per feasible alternative of the value
+                for s2, v1 in self.split(s, vals[1]):
+                    out.append((s2, self.bm.make_dict_literal(self, vals[:1], [v1])))
+                continue
             out.append((s, self.bm.make_dict_literal(self, vals[:n], vals[n:])))
         return out
 
@@ -574,6 +579,11 @@ class Engine:
         argexprs = [*e.args, *[k.value for k in e.keywords]]
         kwnames = [k.arg for k in e.keywords]
 
+        if (isinstance(e.func, ast.Attribute) and isinstance(e.func.value, ast.Call)
+                and isinstance(e.func.value.func, ast.Name) and e.func.value.func.id == "super"
+                and not e.func.value.args and not e.func.value.keywords):
+            return self._super_call(e, st, argexprs, kwnames)
+
         if isinstance(e.func, ast.Attribute):
             def f(s, vals):
                 recv, args = vals[0], vals[1:]
@@ -591,6 +601,35 @@ class Engine:
             return self.call(s, fn, pos, kw, e)
 
         return self.bind(self.eval_many([e.func, *argexprs], st), g)
+
+    def _super_call(self, e, st, argexprs, kwnames):
+        """`super().meth(...)` inside a method under contract: the contract of the first class after the verified
+        method's class in the *real* MRO that defines `meth` is applied to the same `self` (modular call)."""
+        from . import extract
+
+        c = getattr(self, "contract", None)
+        if c is None or "." not in c.qualname or "self" not in st.vars:
+            raise Unsupported("super() outside a method under contract")
+        cls_name = c.qualname.split(".")[0]
+        real = vars(extract.import_module(c.module)).get(cls_name)
+        if not isinstance(real, type):
+            raise Unsupported(f"super(): class {cls_name} not found")
+        meth = e.func.attr
+        target = None
+        for base in real.__mro__[1:]:
+            if meth in vars(base):
+                target = self.registry.methods.get((base.__name__, meth))
+                if target is None:
+                    raise Unsupported(f"super().{meth}: {base.__name__}.{meth} has no contract")
+                break
+        if target is None:
+            raise Unsupported(f"super().{meth}: no base class defines it")
+
+        def f(s, vals):
+            pos, kw = vals[: len(e.args)], dict(zip(kwnames, vals[len(e.args):]))
+            return target.apply(self, s, [s.vars["self"], *pos], kw, e)
+
+        return self.bind(self.eval_many(argexprs, st), f)
 
     def _call_with_unpacking(self, e, st):
         """f(*args, **kwargs) where the unpacked values are TupleV / concrete-key dicts."""
@@ -768,6 +807,16 @@ class Engine:
         m = getattr(self, "s_" + type(s).__name__, None)
         if m is None:
             raise Unsupported(f"statement {type(s).__name__} (line {s.lineno})")
+        cuts = getattr(self, "cuts", None)
+        if (cuts and isinstance(s, ast.Assign) and len(s.targets) == 1 and isinstance(s.targets[0], ast.Name)
+                and s.targets[0].id in cuts and "_yield" in st.vars and not getattr(self, "spec_mode", False)):
+            name = s.targets[0].id
+            for k, inv in enumerate(cuts[name]):
+                self.oblige("cut", f"{name}.{k}", st, self.eval_contract_expr(inv, st, {}, where=f"cut{k}"), s.lineno)
+            y = st.vars["_yield"]
+            st = st.bind("_yield", fresh(y.kind, "_yield_cut"))
+            for inv in cuts[name]:
+                st = st.assume(self.eval_contract_expr(inv, st, {}, where="assume"))
         return m(s, st)
 
     def _expr_outcomes(self, results, fn):
@@ -815,6 +864,15 @@ class Engine:
             outs = []
             if isinstance(y, ast.Yield):
                 for s3, v1 in self.split(s2, v):
+                    if isinstance(v1, self.bm.LitDict) and any(isinstance(x, UnionV) for x in v1.items.values()):
+                        # a record literal whose fields are unions: one outcome per feasible combination of alternatives
+                        names = list(v1.items)
+                        for s4, alts in self.split_all(s3, [v1.items[n] for n in names]):
+                            v2 = self.bm.LitDict(dict(zip(names, alts)))
+                            if not fits(v2, acc.elem):
+                                raise Unsupported(f"yield of {v2.kind!r} into generator of {acc.elem!r}")
+                            outs.append(Outcome("normal", s4.bind("_yield", ListV(acc.elem, z3.Concat(acc.t, z3.Unit(box(v2, acc.elem)))))))
+                        continue
                     if not fits(v1, acc.elem):
                         raise Unsupported(f"yield of {v1.kind!r} into generator of {acc.elem!r}")
                     outs.append(Outcome("normal", s3.bind("_yield", ListV(acc.elem, z3.Concat(acc.t, z3.Unit(box(v1, acc.elem)))))))
@@ -1041,6 +1099,70 @@ class Engine:
         return self._expr_outcomes(self.eval(s.test, st), f)
 
     def s_If(self, s, st):
+        outs = self._s_If(s, st)
+        if getattr(self, "merge_paths", False) and not getattr(self, "spec_mode", False):
+            outs = self._merge_normal(st, outs)
+        return outs
+
+    def _merge_normal(self, st0, outs):
+        """Join the normal outcomes of one statement executed from st0 into a single state: path condition =
+        st0.pc + [disjunction of the branches' extra conditions]; a variable that differs between branches becomes an
+        ite term (same kind) or a union value guarded by the branch conditions.  Exact (no abstraction)."""
+        from .kinds import unbox
+
+        normal = [o for o in outs if o.kind == "normal"]
+        if len(normal) < 2:
+            return outs
+        n0 = len(st0.pc)
+        for o in normal:
+            if len(o.state.pc) < n0 or any(a is not b for a, b in zip(o.state.pc[:n0], st0.pc)):
+                return outs
+            if o.state.ghost.keys() != normal[0].state.ghost.keys() or any(
+                    o.state.ghost[k] is not normal[0].state.ghost[k] for k in o.state.ghost):
+                return outs
+        guards = [And(*o.state.pc[n0:]) for o in normal]
+        names = set(normal[0].state.vars)
+        for o in normal[1:]:
+            names &= set(o.state.vars)
+        merged = {}
+        for n in normal[0].state.vars:
+            if n not in names:
+                continue
+            vals = [o.state.vars[n] for o in normal]
+            if all(v is vals[0] for v in vals):
+                merged[n] = vals[0]
+                continue
+            v0 = vals[0]
+            same_kind = False
+            if not isinstance(v0, (UnionV, ConstV, FuncV, ClosureV)) and not isinstance(v0, self.bm.LitDict):
+                try:
+                    k = v0.kind
+                    same_kind = all(type(v) is type(v0) and v.kind == k for v in vals)
+                except Exception:  # noqa: BLE001
+                    same_kind = False
+            if same_kind:
+                try:
+                    t = box(vals[-1], k)
+                    for g, v in zip(reversed(guards[:-1]), reversed(vals[:-1])):
+                        t = z3.If(g, box(v, k), t)
+                    merged[n] = unbox(t, k)
+                    continue
+                except Unsupported:
+                    pass
+            # group identical objects so that a union has one alternative per distinct value
+            alts = []
+            for g, v in zip(guards, vals):
+                for i, (g2, v2) in enumerate(alts):
+                    if v2 is v:
+                        alts[i] = (Or(g2, g), v2)
+                        break
+                else:
+                    alts.append((g, v))
+            merged[n] = UnionV(alts)
+        ms = State(merged, [*st0.pc, Or(*guards)], normal[0].state.ghost, normal[0].state.notes)
+        return [Outcome("normal", ms), *[o for o in outs if o.kind != "normal"]]
+
+    def _s_If(self, s, st):
         outs = []
         for s1, c in self.eval(s.test, st):
             if isinstance(c, RaiseV):
